@@ -136,6 +136,13 @@ class Vec:
         return f"Vec({self.items})"
 
 
+class FieldSpec:
+    """dataclasses.field(...)"""
+    def __init__(self, default=_MISSING, default_factory=_MISSING, compare=True, init=True, **other):
+        self.default, self.default_factory, self.compare, self.init = default, default_factory, compare, init
+        self.name = None
+
+
 class VecFlags:
     """x.flags of an array: only the writeable flag is modelled (it is inherited by the rows of a 2-D array)"""
     def __init__(self, vec):
